@@ -84,6 +84,30 @@ FROM_TEXT += [
     "from_text " + _q("a,b\n9223372036854775808,1e400\n"), "from_text format:csv " + _q("é,b\n1,2\n") + " | select {b}",
 ]
 
+# interpolated strings whose literal text carries backslashes, quotes, braces and escapes
+INTERP = [
+    's"REGEXP_REPLACE({s}, \'\\\\d+\', \'\')"',
+    'f"a\\\\b{s}"',
+    's"{s} LIKE \'10\\\\%\' ESCAPE \'\\\\\'"',
+    'f"C:\\\\dir\\\\{s}"',
+    'f"{{literal}} {s}"',
+    's"a\\"b{s}"',
+    'f"tab\\there{s}"',
+    'f"nl\\n{s}"',
+    "f'single {s} \"double\"'",
+    'f"{s}{s}"',
+    'f"x{s}y{a}z"',
+    's"COALESCE({a}, {b:0})"',
+    'f"\\u{e9}{s}"',
+    's"{s} IN (\'a\', \'b\')"',
+    'f"{{}}"',
+    's"1"',
+    'f"100%{s}"',
+]
+for _t in INTERP:
+    FROM_TEXT.append("from t1 | derive {x = %s} | select {id, x}" % _t)
+    FROM_TEXT.append(("from t1 | filter (%s) != null | select {id}" if _t.startswith("f") else "from t1 | sort {%s} | select {id}") % _t)
+
 
 def programs():
     """-> list of (tag, source)"""
